@@ -96,6 +96,7 @@ enum DocMut {
     Swap(u16, u16),
     NonAscii(u16, u8),
     Truncate(u16, u16),
+    Prefix(u16, u8),
 }
 
 fn idx(draw: u16, len: usize) -> usize {
@@ -114,6 +115,9 @@ const BOUNDARY_LINES: &[&str] = &[
     "9223372036854775808 GOSUB 0",
     "4294967296 NEXT Q",
 ];
+/// Text an editor, a paste or an encoding may put in front of a line (byte order
+/// mark, indentation, no-break / zero-width / ideographic spaces).
+const LINE_PREFIXES: &[&str] = &["\u{feff}", " ", "\t", "   ", "\u{a0}", "\u{200b}", "\u{3000}", "\u{feff} "];
 const NON_ASCII: &[&str] = &[" : REM é ü 😊", " : PRINT \"é\" + 1", " : Q$ = \"😊\" : GOTO 7", " : PRINT \"日本\"; X9", " : REM ñ"];
 
 fn doc_mut() -> impl Strategy<Value = DocMut> {
@@ -128,6 +132,7 @@ fn doc_mut() -> impl Strategy<Value = DocMut> {
         1 => (any::<u16>(), any::<u16>()).prop_map(|(a, b)| DocMut::Swap(a, b)),
         3 => (any::<u16>(), 0u8..(NON_ASCII.len() as u8)).prop_map(|(a, b)| DocMut::NonAscii(a, b)),
         2 => (any::<u16>(), any::<u16>()).prop_map(|(a, b)| DocMut::Truncate(a, b)),
+        2 => (any::<u16>(), 0u8..(LINE_PREFIXES.len() as u8)).prop_map(|(a, b)| DocMut::Prefix(a, b)),
     ]
 }
 
@@ -174,6 +179,13 @@ fn apply_doc_muts(mut lines: Vec<String>, muts: Vec<DocMut>) -> Vec<String> {
                 if n > 0 {
                     let i = idx(p, n);
                     lines[i].push_str(NON_ASCII[k as usize]);
+                }
+            }
+            DocMut::Prefix(p, k) => {
+                if n > 0 {
+                    // half of the draws hit the first line of the file
+                    let i = if p % 2 == 0 { 0 } else { idx(p, n) };
+                    lines[i].insert_str(0, LINE_PREFIXES[k as usize]);
                 }
             }
             DocMut::Truncate(p, at) => {
